@@ -744,11 +744,101 @@ def check_roundtrip(case):
         bad = pm.check_resaved(pm.MISSING, own, reader, box["cap"], True)
         if bad is not None:
             return fail(bad[0], dict(bad[1], phase="run2-save"), feats)
+        # ... and it holds D2's own labels only (known from the generated source: just "dtwo"), not the
+        # labels D2 restored from D1's file -- "the same set of labels" a third document would restore
+        own_table = own[1].get(reader) if own[0] == "ok" and isinstance(own[1], dict) else None
+        if isinstance(own_table, dict) and sorted(own_table) != ["dtwo"]:
+            return fail("resave-foreign-label:restored-labels-saved-as-own",
+                        {"phase": "run2-save", "saved": sorted(map(repr, own_table)), "expected": ["dtwo"]}, feats)
         after = pm.decode(read_file(path))
         if pm.canon(after) != pm.canon(state):
             return fail("other-document-file-changed", {"phase": "run2"}, feats)
     nt = len(exp) >= 3 and len(savers) == 2
     return ok(sorted(feats), nt)
+
+
+# --------------------------------------------------------------------------
+# stream 4b: several other documents, in several directories, some with the same job name
+# --------------------------------------------------------------------------
+def make_multidir(tier):
+    return st.fixed_dictionaries({
+        "items": items_st(10, min_n=2),
+        "reader": renderer_st,
+        "jobs": st.sampled_from([["index", "index"], ["index", "index"], ["partA", "partB"], ["index", "other"]]),
+        "twice": st.booleans()})          # list one directory twice in paux-dirs
+
+
+def check_multidir(case):
+    """D1a and D1b (two halves of the label set) are rendered in two directories, possibly under the
+    same job name; D2, in a third directory with both in paux-dirs, must restore both label sets."""
+    import plasTeX.Compile
+    guard()
+    items, reader, jobs = case["items"], case["reader"], case["jobs"]
+    labelled = [it for it in items if it.get("l")]
+    if len(labelled) < 2:
+        return skip("fewer-than-two-labels")
+    feats = set(["reader:" + reader, "jobs:" + ("same-name" if jobs[0] == jobs[1] else "different-names")])
+    if case["twice"]:
+        feats.add("directory-listed-twice")
+    cut = len(items) // 2
+    halves = [items[:cut], items[cut:]]
+    if not any(it.get("l") for it in halves[0]) or not any(it.get("l") for it in halves[1]):
+        halves = [[it for i, it in enumerate(items) if i % 2 == 0], [it for i, it in enumerate(items) if i % 2 == 1]]
+    def wellformed(part):
+        out, seen = [], False
+        for it in part:
+            if it["t"] == "sub" and not seen:
+                it = dict(it, t="sec")      # a half must not start with a subsection
+            seen = seen or it["t"] == "sec"
+            out.append(it)
+        return out
+    halves = [wellformed(h) for h in halves]
+    with casedir() as top:
+        want = {}
+        dirs = []
+        for k, (part, job) in enumerate(zip(halves, jobs)):
+            d = os.path.join(top, "dir%d" % k)
+            os.mkdir(d)
+            dirs.append(d)
+            os.chdir(d)
+            src, exp = pm.build_doc(part)
+            box, err = render_doc(src, reader, job)
+            if err is not None:
+                return render_failure(box, err, pm.MISSING, reader, feats)
+            bad = pm.check_capture(exp, box["cap"])
+            if bad is not None:
+                return fail(bad[0], dict(bad[1], renderer=reader, source=src), feats)
+            want.update(box["cap"])
+        d2 = os.path.join(top, "reader")
+        os.mkdir(d2)
+        os.chdir(d2)
+        with open("D2.tex", "w", encoding="utf-8") as f:
+            f.write(pm.refs_doc(sorted(want)))
+        config = mkconfig(reader, dirs + ([dirs[0]] if case["twice"] else []))
+        with quiet_stderr():
+            tex, err = call_real(plasTeX.Compile.parse, "D2.tex", config)
+        if err is not None:
+            return fail("parse-raise:%s@%s" % (err.type, err.where), err.detail(), feats)
+        got = tex.ownerDocument.context.labels
+        lost = sorted(set(want) - set(got))
+        if lost:
+            return fail("label-lost:other-directory", {"lost": lost, "jobs": jobs, "reader": reader,
+                                                       "restored": sorted(k for k in got if k != "dtwo")}, feats)
+        for lab in sorted(want):
+            node = got[lab]
+            for a in ("ref", "id"):
+                v = getattr(node, a, None)
+                v = None if v is None else str.__str__(str(v))
+                if want[lab].get(a) is not None and v != want[lab].get(a):
+                    return fail("roundtrip-mismatch:" + a, {"label": lab, "rendered": want[lab].get(a),
+                                                            "restored": repr(v), "reader": reader}, feats)
+    return ok(sorted(feats), len(want) >= 3)
+
+
+RULE_MD = ("two halves of a generated label set rendered as two documents in two directories (same job name in "
+           "half of the cases), a third document with both directories in paux-dirs (one possibly listed twice) "
+           "parsed through Compile.parse: every label of both must be restored with its number and id. "
+           "Non-trivial: >= 3 labels.")
 
 
 # --------------------------------------------------------------------------
@@ -912,6 +1002,8 @@ RULE_HI = ("state machine, <=10 steps over one J.paux shared by HTML5 and XHTML:
 STREAMS = [
     Stream("roundtrip", "given", make_roundtrip, check_roundtrip,
            budget={"quick": 14, "thorough": 300}, timeout=120.0, rule=RULE_RT, hang_is_violation=True),
+    Stream("multidir", "given", make_multidir, check_multidir,
+           budget={"quick": 10, "thorough": 200}, timeout=120.0, rule=RULE_MD, hang_is_violation=True),
     Stream("truncation", "given", make_truncation, check_truncation,
            budget={"quick": 10, "thorough": 120}, timeout=120.0, rule=RULE_TR, hang_is_violation=True),
     Stream("bitflip", "given", make_bitflip, check_bitflip,
